@@ -1,0 +1,24 @@
+//go:build verif
+
+// Contract TEMPLATE for the enum types emitted by tplEnum (comment-only; read
+// by /verif/govc).  It is instantiated mechanically for every non-alias enum
+// type T found by shape in pkg/dialects/* (type T uint64, labels_T, values_T,
+// MarshalText, UnmarshalText): a ghost client
+//
+//	func govcEnumRT_T(e T [, b0..bn bool]) (e2 T, err error) {
+//		b, _ := e.MarshalText(); err = (&e2).UnmarshalText(b); return
+//	}
+//
+// is generated into the verification overlay and verified against the REAL
+// generated methods.
+
+package conversion
+
+//@ template enum-plain T
+//@   lemma    govcEnumRT_T                          -- for every 64-bit value e
+//@   ensures  [text-round-trip] err == nil && e2 == e
+
+//@ template enum-bitmask T
+//@   lemma    govcEnumRT_T                          -- one Boolean b_j per defined entry v_j
+//@   requires e == OR_j (b_j ? v_j : 0)             -- every combination of defined flags, and zero
+//@   ensures  [text-round-trip] err == nil && e2 == e
